@@ -24,7 +24,7 @@ from ..kernel import Discard, EventLog, InjectedFault, Streams, Violation, close
 PROP = "C10"
 
 EVIDENCE = {
-    "probes_expected": ["condensed-vs-explicit-compared", "restart-dropped-state", "recreated-body-compared", "unrelated-dual-field-created-before", "uniform-knob-compared", "uniform-knob-assembly-compared", "planestrain-slab-compared", "axisymmetric-energy-compared", "fault:solver_inexact", "distorted-mesh"],
+    "probes_expected": ["condensed-vs-explicit-compared", "restart-dropped-state", "recreated-body-compared", "matrix-after-evaluate-compared", "unrelated-dual-field-created-before", "uniform-knob-compared", "uniform-knob-assembly-compared", "planestrain-slab-compared", "axisymmetric-energy-compared", "fault:solver_inexact", "distorted-mesh"],
     "clauses_sampled_only": [
         "plane strain vs unit-thickness slab (in-plane forces and stiffness) is a pure function of the state; evaluated at the converged states the histories reach",
         "axisymmetric nodal forces = derivative of the 2 pi R weighted strain energy: pure; evaluated by central differences of the energy at the reached states. Convergence of the axisymmetric model to a revolved 3D model is not attempted",
@@ -184,6 +184,34 @@ def run_condensed(doc, log):
     if not ok:
         raise Violation(PROP, "condensed-vs-explicit", f"matrix of a body created on the converged displacement field differs from the settled body's (rel {rel:.2e})", site="SolidBodyNearlyIncompressible.recreated.matrix", fault=fkd)
     log.count("recreated-body-compared")
+    # the live body moved to an earlier state through the evaluate.* API (post-processing), then
+    # asked for its matrix without a field: same matrix as a cold body brought there by vector(field)
+    if len(eng.callbacks) >= 2:
+        final = eng.callbacks[-1]["x"]
+        earlier = eng.callbacks[0]["x"]
+        live = w.items[0]
+        # live body: settled at the final state (two residual evaluations above), moved to the
+        # earlier state by ONE evaluate call, then matrix() without a field
+        w.set_values(earlier)
+        if doc["field"]["kind"] == "Field":
+            live.evaluate.cauchy_stress(live.field)
+        else:
+            live.evaluate.gradient(live.field)
+        K_live = live.assemble.matrix().toarray()
+        # twin body: same state sequence, but moved by assemble.vector(field)
+        field4 = world.build_field(world.build_region(world.build_mesh(doc["mesh"]), doc.get("region")), doc["field"])
+        cold = fem.SolidBodyNearlyIncompressible(world.build_umat(doc["items"][0]["umat"]), field4, bulk=bulk)
+        # (new arrays, not in-place writes: the state of a fresh body aliases the field's first array)
+        field4[0].values = np.array(final[0], copy=True)
+        cold.assemble.vector(field4)
+        cold.assemble.vector(field4)
+        field4[0].values = np.array(earlier[0], copy=True)
+        cold.assemble.vector(field4)
+        K_cold = cold.assemble.matrix().toarray()
+        ok, rel = close_exact_twin(K_live, K_cold, rtol=1e-7, atol=1e-8 * float(np.abs(K_cold).max()))
+        if not ok:
+            raise Violation(PROP, "condensed-vs-explicit", f"matrix() after the body was moved to another state through evaluate.*(field) differs from the matrix of a body taken through the same states by vector(field) (rel {rel:.2e})", site="SolidBodyNearlyIncompressible.matrix-after-evaluate", fault=fkd)
+        log.count("matrix-after-evaluate-compared")
     if doc["mesh"].get("perturb"):
         log.count("distorted-mesh")
     # restart that drops the condensed state ---------------------------------------------------------
